@@ -219,8 +219,57 @@ def generate(loader: Loader, check: Check, replay_on=True, only_pure=False):
             check.ob(f"ValueType.{meth}#modifies", pi, pc, len(p.ctx.pre_writes()) == 0)
 
 
+HIST_PAIRS = [((True, 32), (False, 32)), ((True, 32), (False, 8)), ((True, 32), (False, 16)), ((False, 8), (True, 32)), ((True, 64), (False, 32)),
+              ((False, 64), (True, 8)), ((True, 16), (True, 8)), ((False, 16), (False, 32))]
+
+
+def gen_history(loader, check, replay_on=True):
+    """the type rules are FUNCTIONS of their arguments: the result for a pair does not depend on which pairs were converted before
+    (no memo / hidden state).  Ground two-call instances through the real code: every ordered pair of the representative list."""
+    from spec import ir as _ir
+    from .common import conc_vt, tname
+    f = loader.get(f"{M_VT}.c11_cast")
+    fp = loader.get(f"{M_VT}.promoted_type")
+    for first in HIST_PAIRS:
+        for second in HIST_PAIRS:
+            inst = f"c11_cast({tname(first[0])}, {tname(first[1])}) then c11_cast({tname(second[0])}, {tname(second[1])})"
+            check.instances_declared += 1
+
+            def setup(it, first=first, second=second):
+                return {"x": [conc_vt(loader, t) for t in first], "y": [conc_vt(loader, t) for t in second]}
+
+            def run(it, st):
+                it.call(f, list(st["x"]), {})
+                it.call(fp, [st["x"][0]], {})
+                return it.call(f, list(st["y"]), {})
+            ex = explore(loader, setup, run)
+            check.absorb(ex, f"history {inst}")
+            if ex.paths:
+                check.instances_generated += 1
+            for p in ex.paths:
+                ok = p.outcome == "return"
+                if ok:
+                    ra, rb = _ir.vt_of(p.value[0]), _ir.vt_of(p.value[1])
+                    want = c11.uac(second[0][0], second[0][1], second[1][0], second[1][1])
+                    ok = ra == tuple(want) and rb == tuple(want)
+                check.ob("c11_cast#function-of-its-arguments (no dependence on earlier calls)", inst, p.ctx.pc, bool(ok),
+                         detail=f"{p.outcome} {p.value!r}", replay=("c04.history", lambda mdl, first=first, second=second: {"first": [list(t) for t in first], "second": [list(t) for t in second]}) if replay_on else None)
+
+
+@replay.register("c04.history")
+def replay_history(a):
+    from rzilcompiler.Transformer.ValueType import ValueType, c11_cast
+    (fa, fb), (sa, sb) = a["first"], a["second"]
+    c11_cast(ValueType(*fa), ValueType(*fb))
+    ra, rb = c11_cast(ValueType(*sa), ValueType(*sb))
+    want = tuple(c11.uac(sa[0], sa[1], sb[0], sb[1]))
+    got = ((ra.signed, ra.bit_width), (rb.signed, rb.bit_width))
+    return got != (want, want), f"after c11_cast({fa}, {fb}): c11_cast({sa}, {sb}) = {got}, C11 common type {want}"
+
+
 def generate_mutant(loader, sink):
     generate(loader, sink, replay_on=False, only_pure=True)
+    gen_history(loader, sink, False)
 
 
 def vtg(loader):
@@ -314,6 +363,7 @@ def run(check: Check):
     check.assume("domain: integer ValueTypes (group without EXTERNAL/VOID/FLOAT), width >= 1, signedness any; "
                  "float groups are outside the property")
     generate(loader, check)
+    gen_history(loader, check)
     audit(loader, check)
     run_mutants(check, MUTANTS, "contracts.c04", "generate_mutant")
     return check.finish(
